@@ -90,3 +90,6 @@ ZIGZAG = _f([[i + 1, v] for i, v in enumerate([2, 5, 2, 8] * 3 + [2])])
 TIE7 = _f([[0, 0], [1, 0], [2, 2], [3, 1], [4, 4], [5, 3], [6, 0]])
 # 13-point evenly spaced decreasing curve on which the refinement cycles between two prefixes that do not include the whole curve
 LM_CYCLE13 = _f([[i, v] for i, v in enumerate([39, 33, 30, 29, 19, 16, 13, 12, 11, 10, 9, 2, 0])])
+# 5-point non-monotone curve with a dip that projects before the start of the root chord: Distance.shortest and Distance.perpendicular
+# choose different split points of the root range (index 1 vs index 3)
+DIP5 = _f([[0, 10], [1, 7], [2, '14.5'], [3, 11], [4, 20]])
